@@ -531,6 +531,15 @@ type c18UntaggedStructField struct {
 	Host string `avp:"Origin-Host"`
 }
 
+// many AVPs on ONE level (more than a dozen), with a code repeated many times: order is data
+type c18ManyOnOneLevel struct {
+	Host  string   `avp:"Origin-Host"`
+	Realm string   `avp:"Origin-Realm"`
+	Apps  []uint32 `avp:"Auth-Application-Id"`
+	VSA   []c18VSA `avp:"Vendor-Specific-Application-Id"`
+	Acct  []uint32 `avp:"Acct-Application-Id"`
+}
+
 // an embedded struct whose TYPE is unexported (its fields are exported and settable)
 type c18common struct {
 	Host  string `avp:"Origin-Host"`
@@ -779,6 +788,28 @@ func c18Statics() []c18Static {
 			h, r := strs[v%3], strs[v/3%3]
 			return &c18UntaggedStructField{Peer: C18Common{"peer." + h, "peer." + r}, RC: u32s[v%3], Note: &C18Second{"note", 7}, Host: h},
 				[]refcodec.Node{u32n(268, u32s[v%3]), strn(264, h)}, true
+		}},
+		{"many-avps-on-one-level", func(v int) (interface{}, []refcodec.Node, bool) {
+			if v >= 4 {
+				return nil, nil, false
+			}
+			n := []int{5, 11, 13, 27}[v] // around the sizes below which sorts and small tables behave specially
+			s := &c18ManyOnOneLevel{Host: "h", Realm: "r"}
+			want := []refcodec.Node{strn(264, "h"), strn(296, "r")}
+			for i := 0; i < n; i++ {
+				x := uint32(16777200 + (i*7)%n) // distinct, not ascending
+				s.Apps = append(s.Apps, x)
+				want = append(want, u32n(258, x))
+			}
+			for i := 0; i < 3; i++ {
+				s.VSA = append(s.VSA, c18VSA{uint32(10415 - i), uint32(30 - i)})
+				want = append(want, vsaNode(uint32(10415-i), uint32(30-i)))
+			}
+			for i := 0; i < n/2; i++ {
+				s.Acct = append(s.Acct, uint32(900-i))
+				want = append(want, u32n(259, uint32(900-i)))
+			}
+			return s, want, true
 		}},
 		{"embedded-struct-of-unexported-type", func(v int) (interface{}, []refcodec.Node, bool) {
 			if v >= 9 {
@@ -1134,7 +1165,7 @@ func runC18(ctx *ev.Ctx) {
 			}
 		}
 	}
-	ctx.Rule = "struct types built with reflect.StructOf: one field for each of 24 (AVP, holder family) rows - including fields declared with a go-diameter datatype other than the dictionary's, and a vendor-specific AVP whose must-not lists V - (including a vendor-specific AVP whose must attribute does not list V and a vendor-less one whose must does) (every scalar data type, a vendor-specific AVP, Float32/64, IPv4/6, IPFilterRule, QoSFilterRule from a generated dictionary) x each Go holder type (native scalar, datatype type, net.IP, []byte, time.Time) x wrapper {T, *T, []T, []*T} x nine tag forms (plain, omitempty, each with a second key before/after, other keys carrying their own ,omitempty option before/after) x values {boundary atoms; nil pointer; nil, empty, 1-, 2- and 4-element slices}; plus static shapes: nested struct, pointer to struct, slice of structs with omitempty members (an element or a pointed-to struct all of whose members are omitted still yields its - empty - Grouped AVP), slice of pointers, anonymous embedded struct (first, after a tagged field, in the middle, of an unexported type; two embedded structs declaring the same Go field names; an outer field shadowing an embedded one; untagged NAMED fields of struct / pointer-to-struct type whose types carry avp tags - not marshalled), group in group, AVP / *AVP / []*AVP / []AVP fields (the last also as a group member), optional group members held through pointers with omitempty (each of three members nil, pointing to 0, pointing to 7 - a non-nil pointer to the zero value is a present member), in a nested struct, a pointer to one and slices of both; the struct shapes also in a message carrying a private dictionary that defines every name used with another code, other flags and vendor ids (members of nested structs must be resolved through the message's dictionary too). Six tag names the default dictionary defines differently in two applications (vendor id, flags or data type) are marshalled into messages of the one application, the other, and the first again, in both orders, in one process. Every struct shape is marshalled a second time, with its string members changed and its ready-made []*AVP list (built by append, or with a capacity hint) shared, into a second message: the first message must not change. Every other case marshals into a message that already holds an AVP and has been marshalled into before. Oracle: the AVP bytes Marshal produces equal the AVPs built by hand from the reference dictionary entry (code, vendor id, M from must, V from vendor, typed value); Unmarshal directly and after Serialize+ReadMessage reproduces the field values (nil == empty for slices, times by second, floats by bits)."
+	ctx.Rule = "struct types built with reflect.StructOf: one field for each of 24 (AVP, holder family) rows - including fields declared with a go-diameter datatype other than the dictionary's, and a vendor-specific AVP whose must-not lists V - (including a vendor-specific AVP whose must attribute does not list V and a vendor-less one whose must does) (every scalar data type, a vendor-specific AVP, Float32/64, IPv4/6, IPFilterRule, QoSFilterRule from a generated dictionary) x each Go holder type (native scalar, datatype type, net.IP, []byte, time.Time) x wrapper {T, *T, []T, []*T} x nine tag forms (plain, omitempty, each with a second key before/after, other keys carrying their own ,omitempty option before/after) x values {boundary atoms; nil pointer; nil, empty, 1-, 2- and 4-element slices}; plus static shapes: nested struct, pointer to struct, slice of structs with omitempty members (an element or a pointed-to struct all of whose members are omitted still yields its - empty - Grouped AVP), slice of pointers, anonymous embedded struct (first, after a tagged field, in the middle, of an unexported type; two embedded structs declaring the same Go field names; an outer field shadowing an embedded one; untagged NAMED fields of struct / pointer-to-struct type whose types carry avp tags - not marshalled), 5 / 11 / 13 / 27 repetitions of one code next to other repeated codes on one level (order is data), group in group, AVP / *AVP / []*AVP / []AVP fields (the last also as a group member), optional group members held through pointers with omitempty (each of three members nil, pointing to 0, pointing to 7 - a non-nil pointer to the zero value is a present member), in a nested struct, a pointer to one and slices of both; the struct shapes also in a message carrying a private dictionary that defines every name used with another code, other flags and vendor ids (members of nested structs must be resolved through the message's dictionary too). Six tag names the default dictionary defines differently in two applications (vendor id, flags or data type) are marshalled into messages of the one application, the other, and the first again, in both orders, in one process. Every struct shape is marshalled a second time, with its string members changed and its ready-made []*AVP list (built by append, or with a capacity hint) shared, into a second message: the first message must not change. Every other case marshals into a message that already holds an AVP and has been marshalled into before. Oracle: the AVP bytes Marshal produces equal the AVPs built by hand from the reference dictionary entry (code, vendor id, M from must, V from vendor, typed value); Unmarshal directly and after Serialize+ReadMessage reproduces the field values (nil == empty for slices, times by second, floats by bits)."
 	ctx.Assume = []string{"holder types are those for which the reflect code has a conversion path (AssignableTo / ConvertibleTo); Address holders carry IPv4 / IPv6 only"}
 }
 
